@@ -12,6 +12,8 @@
 // Reference: an independent traversal of the model through public getters (snapshot()) - "carrier key -> id".
 #include "xstate.hpp"
 #include "logger_p.h"
+#include <cstddef>
+#include <malloc.h>
 
 using namespace vf;
 
@@ -64,6 +66,7 @@ struct AnnView: public Logger::LoggerImpl
     size_t mHash;
 };
 AnnView *view(const AnnotatorPtr &a) { return reinterpret_cast<AnnView *>(a->Logger::mPimpl); }
+bool g_hasHash = false; // the mirrored mHash field exists in the build under test (a repaired annotator may have dropped it)
 bool viewWorks()
 {
     static int ok = -1;
@@ -73,7 +76,20 @@ bool viewWorks()
         m->setId("q");
         a->setModel(m);
         AnnView *v = view(a);
-        ok = (v->mAnnotator == a.get() && v->mCounter == 0xb4da55 && v->mIdList.size() == 1 && v->mIdList.count("q") == 1 && v->mModel.lock() == m && v->mHash != 0) ? 1 : 0;
+        // never read past the real object: the allocation must be at least as large as the part of the mirror that is read
+        size_t usable = malloc_usable_size(v);
+        bool canReadCounter = usable >= offsetof(AnnView, mCounter) + sizeof(size_t);
+        bool canReadHash = usable >= sizeof(AnnView);
+        ok = (canReadCounter && v->mAnnotator == a.get() && v->mCounter == 0xb4da55 && v->mIdList.size() == 1 && v->mIdList.count("q") == 1 && v->mModel.lock() == m) ? 1 : 0;
+        if (ok && canReadHash) {
+            // the field behind the counter is the hash iff it is non-zero after setModel and zero after clearAllIds
+            size_t h1 = v->mHash;
+            a->clearAllIds();
+            size_t h2 = v->mHash;
+            g_hasHash = h1 != 0 && h2 == 0;
+            m->setId("q");
+            a->setModel(m);
+        }
         if (ok) {
             (void)a->assignId(m, CellmlElementType::ENCAPSULATION);
             ok = (m->encapsulationId() == "b4da55" && v->mIdList.size() == 2) ? 1 : 0;
@@ -733,14 +749,14 @@ struct AnnWorld
         if (!c3In) s += " c3{" + u.c3->id() + "," + u.v2->id() + "}"; // ids of the detached component matter when it is added back
         if (viewWorks()) {
             AnnView *v = view(u.ann);
-            s += " counter=" + hexId(v->mCounter) + " hash=" + (v->mHash == 0 ? "0" : "set") + " cache:";
+            s += " counter=" + hexId(v->mCounter) + " cache:";
             std::vector<std::string> e;
             for (auto &kv : v->mIdList) e.push_back(kv.first + "/" + std::to_string(int(kv.second->type())));
             std::sort(e.begin(), e.end());
             for (auto &x : e) s += x + ",";
-            s += " H" + std::to_string(v->mHash);
+            if (g_hasHash) s += " H" + std::to_string(v->mHash);
         }
-        if (g_options.count("fullkey")) { key = s; return; }
+        if (g_options.count("fullkey") || g_options.count("history")) { key = s; return; } // replays print the readable state
         // 128-bit digest keeps the explorer's seen-set small
         uint64_t h1 = 1469598103934665603ULL, h2 = std::hash<std::string> {}(s);
         for (unsigned char ch : s) { h1 ^= ch; h1 *= 1099511628211ULL; }
@@ -972,6 +988,7 @@ Family annFamily(const std::string &name, ExploreLimits quick, ExploreLimits tho
         c.count("violation_lines_suppressed_as_repeats_of_a_printed_class", suppressed);
         for (auto &kv : perSig) c.count("violating_transitions[" + kv.first + "]", kv.second);
         c.count("hidden_state_view_available", viewWorks() ? 1 : 0);
+        c.count("hidden_hash_field_present", g_hasHash ? 1 : 0);
         if (g_slots) {
             for (int p = 0; p < NSLOT; ++p) if (g_slots[p].state == 2) c.outcomes[g_slots[p].name] += g_slots[p].n;
             munmap(g_slots, sizeof(Slot) * NSLOT);
